@@ -441,3 +441,40 @@ def staggered(widths, kind=0):
     for k in reversed(kids):
         body = ["spawn", k, [], body]
     return body
+
+
+def override_family(rng):
+    """tasks that hold several nested overrides of the same scoped value while they are suspended on an item, with
+    siblings (and the code after the blocks) reading the value: pause/resume order and save/restore are observable"""
+    var = rng.randrange(2)
+    depth = rng.randint(2, 3)
+
+    def holder(seed):
+        inner = ["item", rng.randrange(2), seed, "ok", ["yld", ["f", ["own", 0]], ["read", var, ["endwith"]], ["reraise"]]]
+        body = inner
+        for d in range(depth):
+            tail = ["read", var, ["endwith"]] if d < depth - 1 else ["read", var, ["read", 1 - var, [rng.choice(["ret", "res"]), 1]]]
+            kind = ["override", var, 10 * (d + 1) + seed] if rng.random() < 0.85 else ["plain"]
+            body = ["with", kind, body, tail]
+        return body
+
+    def reader(seed):
+        b = ["read", var, ["ret", 2]]
+        if rng.random() < 0.7:
+            b = ["item", rng.randrange(2), seed, "ok", ["yld", ["f", ["own", 0]], ["read", var, ["ret", 3]], ["reraise"]]]
+        return ["read", var, b]
+
+    kids = [holder(1)] + [rng.choice([holder, reader])(i + 2) for i in range(rng.randint(1, 3))]
+    rng.shuffle(kids)
+    body = ["yld", [rng.choice(["tup", "lst"])] + [["f", ["own", i]] for i in range(len(kids))], ["read", var, ["ret", 9]], ["reraise"]]
+    for k in reversed(kids):
+        body = ["spawn", k, [], body]
+    if rng.random() < 0.5:
+        body = ["with", ["override", var, 7], body, ["read", var, ["ret", 8]]]
+        # the yield inside must end the block: replace its continuation
+        def patch(b):
+            if b[0] == "spawn":
+                return ["spawn", b[1], b[2], patch(b[3])]
+            return ["yld", b[1], ["read", var, ["endwith"]], ["reraise"]]
+        body = ["with", ["override", var, 7], patch(body[2]), ["read", var, ["ret", 8]]]
+    return {"cfg": {"kinds": {}, "salt": rng.randrange(1000000)}, "profile": "override-family", "tops": [[rng.choice(["value", "call"]), body]]}
